@@ -39,6 +39,21 @@ func vfGenC02Msg(t *rapid.T) (*vfkit.Msg, bool) {
 			m.An = m.An[:pos]
 		}
 	}
+	if rapid.IntRange(0, 24).Draw(t, "nested") == 0 {
+		// a run of records whose owners each extend the previous one by a label (reverse zones, delegation chains):
+		// the compressed form of such a run points from name to name to name
+		n := rapid.IntRange(4, 40).Draw(t, "nestedNames")
+		owner := vfkit.Name{[]byte("base")}
+		run := make([]vfkit.RR, 0, n)
+		for i := 0; i < n; i++ {
+			run = append(run, vfkit.RR{Owner: owner, Type: 1, Class: 1, TTL: 60, RData: []vfkit.RDPart{{Raw: []byte{10, 0, 0, byte(i)}}}})
+			owner = append(vfkit.Name{[]byte{"abcdefghij"[i%10]}}, owner...)
+		}
+		if rapid.Bool().Draw(t, "nestedShuffled") {
+			run = rapid.Permutation(run).Draw(t, "nestedOrder")
+		}
+		m.An = append(m.An, run...)
+	}
 	return m, big
 }
 
